@@ -56,8 +56,19 @@ Fixpoint app_ref (w : world) (l : list tobj) : bool :=
   | [] => false
   | t :: r => let hn := negb (null r) in (3 + b2n hn <? rc_text w t hn) || app_ref w r
   end.
-(* the three `continue`s *)
+(* getrefcount(head) for `_tail_node` / `_data_node` (since /repo e92425d): the call's argument, the
+   wrapper's attribute, the local, the first appended object's `_bound_to` if any, + client references *)
+Definition rc_head (w : world) (o : oid) (has_app : bool) : nat := 3 + b2n has_app + refs w o.
+(* `getrefcount(tail_node) > 3 + (tail_node._appended_text_node is not None)` *)
+Definition head_ref (w : world) (o : oid) (app : list tobj) : bool :=
+  let ha := negb (null app) in 3 + b2n ha <? rc_head w o ha.
+(* the `continue`s: wrapper referenced; tail head referenced; data head referenced (TagNode); an
+   appendee of the data chain (TagNode) or of the tail chain referenced *)
 Definition keep (w : world) (x : wrapper) : bool :=
+  node_referenced w x || head_ref w (w_th x) (w_tapp x) || (w_tag x && head_ref w (w_dh x) (w_dapp x))
+  || (w_tag x && app_ref w (w_dapp x)) || app_ref w (w_tapp x).
+(* the rule before e92425d, which never looked at the head text objects (finding C04-held-head-text) *)
+Definition keep_old (w : world) (x : wrapper) : bool :=
   node_referenced w x || (w_tag x && app_ref w (w_dapp x)) || app_ref w (w_tapp x).
 
 (* ---------------------------------------------------------------- eviction *)
@@ -142,14 +153,7 @@ Definition append_entry (o : oid) (n : tobj) (e : entry) : entry :=
 Definition append_after (o : oid) (n : tobj) (w : world) : world :=
   mk_world (map (append_entry o n) (ents w)) (locks w) (held w).
 
-(* ---------------------------------------------------------------- guards (decidable) *)
-(* finding 7: "a held head text node's element wrapper is also held (or its document is)" *)
-Definition guard_entry (w : world) (e : entry) : bool :=
-  match e_w e with
-  | None => true
-  | Some x => negb ((w_tag x && mem_oid (w_dh x) (held w)) || mem_oid (w_th x) (held w)) || node_referenced w x
-  end.
-Definition heads_guard (w : world) : bool := forallb (guard_entry w) (ents w).
+(* ---------------------------------------------------------------- guard (decidable) *)
 (* finding 16: no empty head with a chain behind it *)
 Definition slots_entry (e : entry) : bool :=
   match e_w e with
